@@ -1,0 +1,241 @@
+//! `std::sync::{Mutex, Condvar, Barrier}` look-alikes on top of the verification runtime.
+//!
+//! FIFO wait lists, no spurious wake-ups, `notify_all` wakes every waiter.
+use std::cell::UnsafeCell;
+use std::ops::{Deref, DerefMut};
+use std::sync::{LockResult, Mutex as StdMutex};
+
+use super::{rt, try_rt, wake, Op, TaskId};
+
+pub struct Mutex<T> {
+    id: usize,
+    meta: StdMutex<MutexMeta>,
+    data: UnsafeCell<T>,
+}
+
+#[derive(Default)]
+struct MutexMeta {
+    token: u64,
+    locked: bool,
+    waiters: Vec<TaskId>,
+}
+
+unsafe impl<T: Send> Send for Mutex<T> {}
+unsafe impl<T: Send> Sync for Mutex<T> {}
+
+impl<T: Default> Default for Mutex<T> {
+    fn default() -> Self {
+        Mutex::new(T::default())
+    }
+}
+
+impl<T> std::fmt::Debug for Mutex<T> {
+    fn fmt(&self, f: &mut std::fmt::Formatter<'_>) -> std::fmt::Result {
+        write!(f, "Mutex#{}", self.id)
+    }
+}
+
+pub struct MutexGuard<'a, T> {
+    m: &'a Mutex<T>,
+}
+
+impl<T> Mutex<T> {
+    pub fn new(t: T) -> Self {
+        Mutex {
+            id: try_rt().map(|r| r.new_object()).unwrap_or(0),
+            meta: Default::default(),
+            data: UnsafeCell::new(t),
+        }
+    }
+    fn acquire(&self) {
+        loop {
+            let mut m = self.meta.lock().unwrap();
+            if !m.locked {
+                m.locked = true;
+                let token = m.token;
+                drop(m);
+                super::hb_acquire(token);
+                return;
+            }
+            let me = rt().me();
+            if !m.waiters.contains(&me) {
+                m.waiters.push(me);
+            }
+            drop(m);
+            rt().block(None);
+        }
+    }
+    fn release(&self) {
+        let mut m = match self.meta.lock() {
+            Ok(m) => m,
+            Err(p) => p.into_inner(),
+        };
+        m.locked = false;
+        m.token = super::hb_release();
+        let w = std::mem::take(&mut m.waiters);
+        drop(m);
+        wake(w);
+    }
+    pub fn lock(&self) -> LockResult<MutexGuard<'_, T>> {
+        rt().op(Op::Lock(self.id));
+        self.acquire();
+        Ok(MutexGuard { m: self })
+    }
+}
+
+impl<T> Deref for MutexGuard<'_, T> {
+    type Target = T;
+    fn deref(&self) -> &T {
+        unsafe { &*self.m.data.get() }
+    }
+}
+impl<T> DerefMut for MutexGuard<'_, T> {
+    fn deref_mut(&mut self) -> &mut T {
+        unsafe { &mut *self.m.data.get() }
+    }
+}
+impl<T> Drop for MutexGuard<'_, T> {
+    fn drop(&mut self) {
+        self.m.release();
+    }
+}
+
+pub struct Condvar {
+    id: usize,
+    waiters: StdMutex<Vec<TaskId>>,
+}
+
+impl Default for Condvar {
+    fn default() -> Self {
+        Condvar::new()
+    }
+}
+impl std::fmt::Debug for Condvar {
+    fn fmt(&self, f: &mut std::fmt::Formatter<'_>) -> std::fmt::Result {
+        write!(f, "Condvar#{}", self.id)
+    }
+}
+
+impl Condvar {
+    pub fn new() -> Self {
+        Condvar {
+            id: try_rt().map(|r| r.new_object()).unwrap_or(0),
+            waiters: Default::default(),
+        }
+    }
+    pub fn notify_all(&self) {
+        let w = std::mem::take(&mut *self.waiters.lock().unwrap());
+        wake(w);
+    }
+    pub fn notify_one(&self) {
+        let w = {
+            let mut l = self.waiters.lock().unwrap();
+            if l.is_empty() {
+                vec![]
+            } else {
+                vec![l.remove(0)]
+            }
+        };
+        wake(w);
+    }
+    pub fn wait<'a, T>(&self, guard: MutexGuard<'a, T>) -> LockResult<MutexGuard<'a, T>> {
+        let m = guard.m;
+        rt().op(Op::Wait(self.id));
+        // atomically (no scheduling point in between) register, release and block
+        self.waiters.lock().unwrap().push(rt().me());
+        drop(guard);
+        rt().block(None);
+        m.acquire();
+        Ok(MutexGuard { m })
+    }
+    pub fn wait_while<'a, T, F>(
+        &self,
+        mut guard: MutexGuard<'a, T>,
+        mut condition: F,
+    ) -> LockResult<MutexGuard<'a, T>>
+    where
+        F: FnMut(&mut T) -> bool,
+    {
+        while condition(&mut *guard) {
+            guard = self.wait(guard)?;
+        }
+        Ok(guard)
+    }
+}
+
+pub struct Barrier {
+    id: usize,
+    n: usize,
+    state: StdMutex<BarrierState>,
+}
+
+#[derive(Default)]
+struct BarrierState {
+    tokens: Vec<u64>,
+    released: Vec<u64>,
+    count: usize,
+    generation: usize,
+    waiters: Vec<TaskId>,
+}
+
+pub struct BarrierWaitResult(bool);
+impl BarrierWaitResult {
+    pub fn is_leader(&self) -> bool {
+        self.0
+    }
+}
+
+impl std::fmt::Debug for Barrier {
+    fn fmt(&self, f: &mut std::fmt::Formatter<'_>) -> std::fmt::Result {
+        write!(f, "Barrier#{}", self.id)
+    }
+}
+
+impl Barrier {
+    pub fn new(n: usize) -> Self {
+        Barrier {
+            id: try_rt().map(|r| r.new_object()).unwrap_or(0),
+            n,
+            state: Default::default(),
+        }
+    }
+    pub fn wait(&self) -> BarrierWaitResult {
+        rt().op(Op::Barrier(self.id));
+        let mut s = self.state.lock().unwrap();
+        let gen = s.generation;
+        s.count += 1;
+        let token = super::hb_release();
+        s.tokens.push(token);
+        if s.count >= self.n {
+            s.count = 0;
+            s.generation += 1;
+            s.released = std::mem::take(&mut s.tokens);
+            let tokens = s.released.clone();
+            let w = std::mem::take(&mut s.waiters);
+            drop(s);
+            for t in tokens {
+                super::hb_acquire(t);
+            }
+            wake(w);
+            return BarrierWaitResult(true);
+        }
+        s.waiters.push(rt().me());
+        drop(s);
+        loop {
+            rt().block(None);
+            let mut s = self.state.lock().unwrap();
+            if s.generation != gen {
+                let tokens = s.released.clone();
+                drop(s);
+                for t in tokens {
+                    super::hb_acquire(t);
+                }
+                return BarrierWaitResult(false);
+            }
+            let me = rt().me();
+            if !s.waiters.contains(&me) {
+                s.waiters.push(me);
+            }
+        }
+    }
+}
